@@ -205,6 +205,9 @@ func (d *Driver) Apply(id uint64, max int) {
 			}
 			if n.Mem.clone().Apply(cc.Type, cc.ReplicaID) {
 				d.Do(fmt.Sprintf("ACC %d %d %d", id, cc.Type, cc.ReplicaID))
+				if nn := d.C.Nodes[id]; nn != nil {
+					nn.Mem.CCID = e.Index
+				}
 			} else {
 				d.Do(fmt.Sprintf("RCC %d", id))
 			}
